@@ -5,12 +5,15 @@ package main
 
 import (
 	"fmt"
+	"go/constant"
 	"go/token"
 	"go/types"
+	"os"
 	"sort"
 	"strings"
 
 	"golang.org/x/tools/go/ssa"
+	"golang.org/x/tools/go/ssa/ssautil"
 )
 
 // ---- error discipline -------------------------------------------------------------
@@ -323,6 +326,9 @@ func fatalSites(roots []*ssa.Function) []fatalSite {
 				for _, ins := range b.Instrs {
 					switch x := ins.(type) {
 					case *ssa.Panic:
+						if panicInfeasible(x) {
+							continue // guarded by a condition that cannot hold (see panicInfeasible)
+						}
 						out = append(out, fatalSite{f, x.Pos(), "panic"})
 					case ssa.CallInstruction:
 						n := calleeName(x.Common())
@@ -571,4 +577,286 @@ func stateRule(p *Prog, rp *Report, id string, roots ...*ssa.Function) {
 	if n == 0 {
 		r.ok(strings.Join(names, ", "), "", fmt.Sprintf("%d functions reachable from the entry points: none stores to a package-level variable, updates a map / sync.Map reachable from one, or calls methods on a package-level object of a foreign stateful type", len(onPath)))
 	}
+}
+
+// ---- panics that cannot happen ---------------------------------------------------------
+
+// panicInfeasible: the block of the panic is entered only over branch edges whose condition is refuted by one of a
+// few sound facts about integers: a value is never negative when it is a constant >= 0, a len or cap, a conversion
+// from an unsigned byte, such a value plus a non-negative constant (overflow of a counter that grows by constants
+// from zero is not considered), a phi of such values, a parameter of an unexported, never address-taken function
+// whose every call site passes such a value, or a load of an unexported integer field every store to which, anywhere
+// in the repository, stores such a value (the field's own value included) and whose address never escapes.
+// Anything else is not refuted and the panic counts as reachable.
+func panicInfeasible(p *ssa.Panic) bool {
+	b := p.Block()
+	if os.Getenv("GDSA_DBG_PANIC") != "" {
+		fmt.Fprintf(os.Stderr, "panic in %s block %d preds %d\n", p.Parent(), b.Index, len(b.Preds))
+		for _, pred := range b.Preds {
+			fmt.Fprintf(os.Stderr, "  pred %d last %T %v\n", pred.Index, pred.Instrs[len(pred.Instrs)-1], pred.Instrs[len(pred.Instrs)-1])
+			if ifi, ok := pred.Instrs[len(pred.Instrs)-1].(*ssa.If); ok {
+				fmt.Fprintf(os.Stderr, "  cond %T %v\n", ifi.Cond, ifi.Cond)
+			}
+		}
+	}
+	if len(b.Preds) == 0 {
+		return false
+	}
+	for _, pred := range b.Preds {
+		ifi, ok := pred.Instrs[len(pred.Instrs)-1].(*ssa.If)
+		if !ok || len(pred.Succs) != 2 || pred.Succs[0] == pred.Succs[1] {
+			return false
+		}
+		onTrue := pred.Succs[0] == b
+		if !condRefuted(ifi.Cond, onTrue, 0) {
+			return false
+		}
+	}
+	return true
+}
+
+// condRefuted: cond cannot have the value `want`.
+func condRefuted(cond ssa.Value, want bool, depth int) bool {
+	if depth > 4 {
+		return false
+	}
+	switch c := cond.(type) {
+	case *ssa.UnOp:
+		if c.Op == token.NOT {
+			return condRefuted(c.X, !want, depth+1)
+		}
+	case *ssa.BinOp:
+		k, isConst := intConst(c.Y)
+		if !isConst {
+			return false
+		}
+		nn := map[ssa.Value]bool{}
+		switch {
+		case want && ((c.Op == token.LSS && k <= 0) || (c.Op == token.LEQ && k < 0)): // v < 0 cannot hold
+			return nonNeg(c.X, nn, 0)
+		case !want && ((c.Op == token.GEQ && k <= 0) || (c.Op == token.GTR && k < 0)): // v >= 0 cannot fail
+			return nonNeg(c.X, nn, 0)
+		}
+	}
+	return false
+}
+
+func intConst(v ssa.Value) (int64, bool) {
+	c, ok := v.(*ssa.Const)
+	if !ok || c.Value == nil || c.Value.Kind() != constant.Int {
+		return 0, false
+	}
+	return constant.Int64Val(c.Value)
+}
+
+func nonNeg(v ssa.Value, assumed map[ssa.Value]bool, depth int) bool {
+	if depth > 12 {
+		return false
+	}
+	if assumed[v] {
+		return true // coinductive: a cycle through phis / the field's own stores
+	}
+	if bt, ok := v.Type().Underlying().(*types.Basic); ok && bt.Info()&types.IsUnsigned != 0 {
+		return true
+	}
+	switch x := v.(type) {
+	case *ssa.Const:
+		k, ok := intConst(x)
+		return ok && k >= 0
+	case *ssa.Call:
+		if bi, ok := x.Call.Value.(*ssa.Builtin); ok && (bi.Name() == "len" || bi.Name() == "cap") {
+			return true
+		}
+	case *ssa.Convert:
+		if bt, ok := x.X.Type().Underlying().(*types.Basic); ok && bt.Info()&types.IsUnsigned != 0 {
+			if rt, ok := x.Type().Underlying().(*types.Basic); ok && rt.Info()&types.IsInteger != 0 && sizeOfBasic(rt) > sizeOfBasic(bt) {
+				return true
+			}
+		}
+	case *ssa.BinOp:
+		if x.Op == token.ADD {
+			if k, ok := intConst(x.Y); ok && k >= 0 {
+				return nonNeg(x.X, assumed, depth+1)
+			}
+			if k, ok := intConst(x.X); ok && k >= 0 {
+				return nonNeg(x.Y, assumed, depth+1)
+			}
+		}
+	case *ssa.Phi:
+		assumed[v] = true
+		for _, e := range x.Edges {
+			if !nonNeg(e, assumed, depth+1) {
+				delete(assumed, v)
+				return false
+			}
+		}
+		return true
+	case *ssa.UnOp:
+		if x.Op == token.MUL {
+			if fa, ok := x.X.(*ssa.FieldAddr); ok {
+				return fieldNonNeg(fa.X.Type(), fa.Field, fa.Parent().Prog, assumed, depth+1)
+			}
+		}
+	case *ssa.Field:
+		return fieldNonNeg(x.X.Type(), x.Field, x.Parent().Prog, assumed, depth+1)
+	case *ssa.Parameter:
+		return paramNonNeg(x, assumed, depth+1)
+	}
+	return false
+}
+
+func sizeOfBasic(b *types.Basic) int {
+	switch b.Kind() {
+	case types.Int8, types.Uint8:
+		return 1
+	case types.Int16, types.Uint16:
+		return 2
+	case types.Int32, types.Uint32:
+		return 4
+	}
+	return 8
+}
+
+type fieldKey struct {
+	s *types.Struct
+	i int
+}
+
+var fieldNonNegCache = map[fieldKey]bool{}
+
+func fieldNonNeg(t types.Type, idx int, prog *ssa.Program, assumed map[ssa.Value]bool, depth int) bool {
+	s := derefStruct(t)
+	if s == nil {
+		if st, ok := t.Underlying().(*types.Struct); ok {
+			s = st
+		}
+	}
+	if s == nil || idx >= s.NumFields() {
+		return false
+	}
+	f := s.Field(idx)
+	if f.Exported() || f.Pkg() == nil || !strings.HasPrefix(f.Pkg().Path(), repoModule) {
+		return false // anybody may store into an exported field
+	}
+	if bt, ok := f.Type().Underlying().(*types.Basic); !ok || bt.Info()&types.IsInteger == 0 {
+		return false
+	}
+	key := fieldKey{s, idx}
+	if r, ok := fieldNonNegCache[key]; ok {
+		return r
+	}
+	fieldNonNegCache[key] = true // coinductive: the field's own value may be stored back (index++)
+	ok := true
+	for fn := range ssautil.AllFunctions(prog) {
+		if !ok {
+			break
+		}
+		if fn.Blocks == nil || !inRepoOrRef(fn) {
+			continue
+		}
+		for _, b := range fn.Blocks {
+			for _, ins := range b.Instrs {
+				switch x := ins.(type) {
+				case *ssa.FieldAddr:
+					if derefStruct(x.X.Type()) != s || x.Field != idx {
+						continue
+					}
+					for _, ref := range *x.Referrers() {
+						switch r := ref.(type) {
+						case *ssa.UnOp:
+							if r.Op != token.MUL {
+								ok = false
+							}
+						case *ssa.Store:
+							if r.Addr != ssa.Value(x) || !nonNeg(r.Val, assumed, depth+1) {
+								ok = false
+							}
+						case *ssa.DebugRef:
+						default:
+							ok = false // the address goes somewhere else
+						}
+					}
+				case *ssa.Convert, *ssa.ChangeType:
+					// a value of another struct type with the same fields is turned into this one
+					v := ins.(ssa.Value)
+					if ds := derefStruct(v.Type()); ds == s {
+						ok = false
+					} else if st, isS := v.Type().Underlying().(*types.Struct); isS && st == s {
+						ok = false
+					}
+				}
+			}
+		}
+	}
+	fieldNonNegCache[key] = ok
+	if !ok {
+		// answers obtained while this one was assumed may depend on it
+		for k, v := range fieldNonNegCache {
+			if v {
+				delete(fieldNonNegCache, k)
+			}
+		}
+		fieldNonNegCache[key] = false
+	}
+	return ok
+}
+
+func paramNonNeg(p *ssa.Parameter, assumed map[ssa.Value]bool, depth int) bool {
+	fn := p.Parent()
+	if fn == nil || fn.Object() == nil || fn.Object().Exported() {
+		return false
+	}
+	if fn.Signature.Recv() != nil {
+		// methods can be reached through interfaces and method values: only plain functions
+		return false
+	}
+	idx := -1
+	for i, q := range fn.Params {
+		if q == p {
+			idx = i
+		}
+	}
+	if idx < 0 {
+		return false
+	}
+	assumed[p] = true
+	sites := 0
+	for g := range ssautil.AllFunctions(fn.Prog) {
+		if g.Blocks == nil {
+			continue
+		}
+		for _, b := range g.Blocks {
+			for _, ins := range b.Instrs {
+				// any use of fn as a value other than as the callee of a static call: unknown callers
+				for _, op := range ins.Operands(nil) {
+					if *op == ssa.Value(fn) {
+						c, isCall := ins.(ssa.CallInstruction)
+						if !isCall || c.Common().Value != ssa.Value(fn) || c.Common().IsInvoke() {
+							delete(assumed, p)
+							return false
+						}
+						for _, a := range c.Common().Args {
+							if a == ssa.Value(fn) {
+								delete(assumed, p)
+								return false
+							}
+						}
+						if _, isGo := ins.(*ssa.Call); !isGo {
+							// go / defer of fn: still a static call with these arguments
+						}
+						sites++
+						if idx >= len(c.Common().Args) || !nonNeg(c.Common().Args[idx], assumed, depth+1) {
+							delete(assumed, p)
+							return false
+						}
+					}
+				}
+			}
+		}
+	}
+	if sites == 0 {
+		delete(assumed, p)
+		return false
+	}
+	return true
 }
